@@ -91,6 +91,12 @@ type fnode struct {
 }
 
 type link struct {
+	// flight is held (shared) by a delivery from the moment it has been admitted
+	// until its effects are recorded; connect and cut take it exclusively after
+	// closing the old generation, so that no delivery of the old connection is
+	// still under way when the follower's next message is built (a real follower
+	// uses one stream at a time)
+	flight    sync.RWMutex
 	mx        sync.Mutex
 	gen       int
 	up        bool
@@ -357,6 +363,8 @@ func (r *runner) connect(f *fnode, l int) error {
 	gen := lk.gen
 	lk.up = true
 	lk.mx.Unlock()
+	lk.flight.Lock() // deliveries of the previous connection have ended
+	lk.flight.Unlock()
 	var joinedBefore int
 	r.ctl.Locked(func() { joinedBefore = r.joined[key] })
 	ldb := r.leaders[l]
@@ -375,6 +383,8 @@ func (r *runner) connect(f *fnode, l int) error {
 		r.emit(map[string]interface{}{"a": "Ev", "e": "connect", "l": l, "f": f.name, "tabs": tabs, "earliest": zenodb.VerifOffset(msg.EarliestOffset)})
 	}
 	go ldb.Follow(&msg, func(data []byte, off wal.Offset) error {
+		lk.flight.RLock()
+		defer lk.flight.RUnlock()
 		lk.mx.Lock()
 		ok := lk.up && lk.gen == gen
 		lk.mx.Unlock()
@@ -406,6 +416,8 @@ func (r *runner) cut(f *fnode, l int) {
 		lk.up = false
 		lk.gen++
 		lk.mx.Unlock()
+		lk.flight.Lock()
+		lk.flight.Unlock()
 	}
 }
 
